@@ -38,12 +38,12 @@ PROFILES = {
             (['m01', 'm03'], FXL, 80, 800, None)],
     'C08': [(['m04', 'm05'], PLAIN, 300, 3000, None),
             (['m04'], FXL, 100, 1000, None)],
-    'C09': [(['m05'], PLAIN, 400, 4000, None),
-            (['m05'], FXL, 150, 1500, None)],
+    'C09': [(['m05'], PLAIN, 400, 12000, None),
+            (['m05'], FXL, 150, 5000, None)],
     'C10': [(['m06', 'm11', 'm17'], FX, 250, 2500, None),
             (['m06', 'm11', 'm17'], PLAIN, 100, 1000, None)],
-    'C11': [(['m08'], FX, 300, 3000, None),
-            (['m08'], dict(effects=0.2, enqueue=0.2, nops=80, stop=0.2), 60, 600, None)],
+    'C11': [(['m08'], FX, 300, 10000, None),
+            (['m08'], dict(effects=0.2, enqueue=0.2, nops=80, stop=0.2), 60, 2000, None)],
     'C12': [(['m01', 'm02', 'm03', 'm05', 'm06', 'm07', 'm11', 'm17'], FAIL, 120, 1200, None),
             (['m04', 'm08', 'm10', 'm12', 'm13', 'm20'], FAIL, 60, 600, None),
             # 'the active state afterwards is the one the policy prescribes for the phase of the throw': the three
@@ -51,8 +51,8 @@ PROFILES = {
             (['m01', 'm03', 'm10'], dict(effects=0.1, enqueue=0.05, fail=0.6), 100, 600, ['b', 'b11', 'mf'], 1),
             (['m01', 'm03', 'm10'], dict(effects=0.1, enqueue=0.05, fail=0.6), 100, 600, ['b', 'b11', 'mf'], 2),
             (['m01', 'm03', 'm10'], dict(effects=0.1, enqueue=0.05, fail=0.6), 100, 600, ['b', 'b11', 'mf'], 3)],
-    'C18': [(['m09'], PLAIN, 400, 4000, None),
-            (['m09'], FXL, 150, 1500, None)],
+    'C18': [(['m09'], PLAIN, 400, 12000, None),
+            (['m09'], FXL, 150, 5000, None)],
 }
 
 LEVELS = {'C12': 'fault_enumeration'}
